@@ -2,6 +2,7 @@
 replayed on the real code through the gate scheduler, recordings validated against DiodeContract
 (verdict) and DiodeImpl (conformance / drift)."""
 import json
+import re
 import os
 import random
 import time
@@ -143,6 +144,115 @@ def _directed_leads(workdir):
     return [s for ss in res for s in ss]
 
 
+COVER_QUICK = [(1, 2, 1, False), (1, 2, 1, True), (2, 1, 1, False)]
+COVER_THOROUGH = COVER_QUICK + [(2, 1, 1, True), (1, 3, 2, False), (1, 3, 2, True), (2, 2, 1, False), (2, 2, 2, False), (2, 2, 2, True)]
+EDGE_RE = re.compile(r'^(-?\d+) -> (-?\d+) \[label="(\w+)"')
+
+
+def step_name(label):
+    """TLC labels an edge with the innermost named action: StepP<n> for the producers (Producer(p) is parameterised),
+    and the action names of DiodeImpl for the others - C... consumer, X... canceller, Cl... the caller of Close."""
+    if label.startswith("StepP"):
+        return "P" + label[5:]
+    if label.startswith("Cl"):
+        return "CL"
+    if label.startswith("X"):
+        return "X"
+    if label.startswith("C"):
+        return "C"
+    raise Inconclusive("DiodeCover: unknown action label %s" % label)
+NODE_RE = re.compile(r'^(-?\d+) \[label=')
+
+
+def cover_scripts(workdir, cfgs, quiesce):
+    """Transition cover: TLC dumps the complete state graph of DiodeCover (= DiodeImpl with one named action per
+    goroutine) and a set of walks from the initial state is computed that traverses EVERY edge at least once; each walk
+    is a schedule for the player. Returns (scripts, graphs) with graphs[cfg] = {"edges": n, "states": n, "walks": {id: [edge ids]}}."""
+    def one(c):
+        P, W, N, pol = c
+        tag = "%d%d%d%s" % (P, W, N, "p" if pol else "w")
+        dot = os.path.join(workdir, "cover_%s.dot" % tag)
+        cfg = "CONSTANTS\n " + constants(P, W, N, pol) + "\nSPECIFICATION CSpec\nCHECK_DEADLOCK FALSE\n"
+        r = tlc(workdir, "DiodeCover", cfg, workers=1, timeout=1500, cfg_name="cover_%s.cfg" % tag, extra=["-dump", "dot,actionlabels", dot], heap="8g")
+        if not r.completed:
+            raise Inconclusive("DiodeCover %s: %s" % (tag, r.out[-800:]))
+        init, succ, nodes = None, {}, set()
+        with open(dot) as f:
+            for ln in f:
+                m = EDGE_RE.match(ln)
+                if m:
+                    u, w, lab = m.group(1), m.group(2), m.group(3)
+                    if u != w:                       # stuttering self-loops are not steps of a goroutine
+                        succ.setdefault(u, []).append((lab, w))
+                    continue
+                m = NODE_RE.match(ln)
+                if m:
+                    nodes.add(m.group(1))
+                    if init is None and "style = filled" in ln:
+                        init = m.group(1)
+        os.unlink(dot)
+        if init is None:
+            raise Inconclusive("DiodeCover %s: no initial state in the dump" % tag)
+        for u in succ:
+            succ[u] = sorted(set(succ[u]))
+        # BFS tree from the initial state
+        parent, order, seen = {}, [init], {init}
+        i = 0
+        while i < len(order):
+            u = order[i]
+            i += 1
+            for lab, w in succ.get(u, ()):
+                if w not in seen:
+                    seen.add(w)
+                    parent[w] = (u, lab)
+                    order.append(w)
+        edge_id, n_edges = {}, 0
+        for u in order:
+            for lab, w in succ.get(u, ()):
+                edge_id[(u, lab, w)] = n_edges
+                n_edges += 1
+        covered = [False] * n_edges
+        nxt = {u: 0 for u in order}                     # per node: index of the first possibly uncovered out-edge
+        scripts, walks = [], {}
+
+        def uncovered_out(u):
+            es = succ.get(u, ())
+            k = nxt[u]
+            while k < len(es) and covered[edge_id[(u, es[k][0], es[k][1])]]:
+                k += 1
+            nxt[u] = k
+            return es[k] if k < len(es) else None
+
+        for u0 in order:
+            while uncovered_out(u0) is not None:
+                # tree path to u0, then follow uncovered edges as long as there are any
+                path = []
+                x = u0
+                while x != init:
+                    px, lab = parent[x]
+                    path.append((px, lab, x))
+                    x = px
+                path.reverse()
+                cur = u0
+                while True:
+                    e = uncovered_out(cur)
+                    if e is None or len(path) > 600:
+                        break
+                    lab, w = e
+                    path.append((cur, lab, w))
+                    covered[edge_id[(cur, lab, w)]] = True
+                    cur = w
+                for t in path:
+                    covered[edge_id[t]] = True
+                sid = "cover-%s-%d" % (tag, len(scripts))
+                walks[sid] = [edge_id[t] for t in path]
+                scripts.append(sched_to_script(sid, P, W, N, pol, [step_name(t[1]) for t in path], quiesce=quiesce and len(scripts) % 4 == 0))
+        return scripts, (c, {"states": len(order), "edges": n_edges, "walks": walks})
+
+    res = pool_map(one, cfgs, workers=max(1, NCPU // 2))
+    return [s for ss, _ in res for s in ss], dict(g for _, g in res)
+
+
 def sim_scripts(workdir, cfgs, n_each, depth, seed, quiesce, block=False):
     def one(c):
         P, W, N, pol = c
@@ -250,6 +360,18 @@ def validate_impl(sc, recs):
             continue  # BlockWriter runs are a different constant; covered by the contract only
         groups.setdefault((s["P"], s["W"], s["N"], s["mode"] == "poller"), []).append(ri)
 
+    items = []
+    for key, ris in groups.items():       # big groups (transition covers) are validated in chunks of about 60 000 lines
+        chunk, n = [], 0
+        for ri in ris:
+            chunk.append(ri)
+            n += len(recs[ri][2])
+            if n > 60000:
+                items.append((key, chunk))
+                chunk, n = [], 0
+        if chunk:
+            items.append((key, chunk))
+
     def one(item):
         (P, W, N, pol), ris = item
         lines, owner = [], []
@@ -260,14 +382,16 @@ def validate_impl(sc, recs):
         try:
             bad, n, r = validate_trace(sc.dir, "DiodeImplTrace", "impl.ndjson", lines, constants=" " + constants(P, W, N, pol), family=FAMILY)
         except Inconclusive as e:
-            return {"cfg": (P, W, N, pol), "scripts": len(ris), "lines": len(lines), "drifted": len(ris), "error": str(e)[-300:], "first": None}
+            return {"cfg": (P, W, N, pol), "scripts": len(ris), "lines": len(lines), "drifted": len(ris), "error": str(e)[-300:], "first": None,
+                    "drifted_ids": [recs[ri][0]["id"] for ri in ris]}
         drifted = sorted({owner[b - 1] for b in bad})
         first = None
         if bad:
             first = {"script": recs[owner[bad[0] - 1]][0]["id"], "line": json.loads(lines[bad[0] - 1]), "ids": [recs[d][0]["id"] for d in drifted[:5]]}
-        return {"cfg": (P, W, N, pol), "scripts": len(ris), "lines": len(lines), "drifted": len(drifted), "first": first}
+        return {"cfg": (P, W, N, pol), "scripts": len(ris), "lines": len(lines), "drifted": len(drifted), "first": first,
+                "drifted_ids": [recs[d][0]["id"] for d in drifted]}
 
-    return pool_map(one, list(groups.items()), workers=NCPU // 2)
+    return pool_map(one, items, workers=NCPU)
 
 
 def check(pid, tier, seed, replay=None):
@@ -281,7 +405,7 @@ def check(pid, tier, seed, replay=None):
         if replay:
             rp = json.load(open(replay))
             scripts = [rp["script"]]
-            stats, leads = [], []
+            stats, leads, graphs = [], [], {}
         else:
             cfgs = THOROUGH_CFGS if thorough else QUICK_CFGS
             stats, leads = model_check(mdir, pid, cfgs, workers_each=4, timeout=1500 if thorough else 300)
@@ -292,7 +416,9 @@ def check(pid, tier, seed, replay=None):
             sims = sim_scripts(mdir, cfgs, nsim, 400, seed, quiesce=(pid == "C12"))
             blocked = sim_scripts(mdir, [(2, 2, 2, False), (2, 2, 1, True), (3, 1, 2, True)], 40 if thorough else 15, 200, seed, False, block=True) if pid == "C10" else []
             free = free_scripts(6000 if thorough else 600, seed, quiesce=(pid == "C12"))
-            scripts = leads + directed + sims + blocked + free
+            covers, graphs = cover_scripts(mdir, COVER_THOROUGH if thorough else COVER_QUICK, quiesce=(pid == "C12"))
+            log("%s: transition cover: %d walks over %d model transitions %.0fs" % (pid, len(covers), sum(g["edges"] for g in graphs.values()), time.time() - t0))
+            scripts = leads + directed + sims + blocked + free + covers
         log("%s: %d scripts (%d model leads)" % (pid, len(scripts), len(leads)))
         recs = play(player, sc, scripts, shards=min(NCPU, max(1, len(scripts) // 20)))
         log("%s: played %.0fs" % (pid, time.time() - t0))
@@ -324,6 +450,18 @@ def check(pid, tier, seed, replay=None):
         samples = []
         for s, o, _ in recs[:2] + recs[-1:]:
             samples.append({"script": {k2: s[k2] for k2 in ("id", "P", "W", "N", "mode", "steps")}, "recording": [json.loads(x) for x in o][:40]})
+        # transition coverage: model transitions traversed by cover walks whose recording is a behaviour of DiodeImpl
+        drifted_ids = {i for c in conf for i in c.get("drifted_ids", [])}
+        tcov = []
+        for c, g in graphs.items():
+            done = set()
+            for sid, es in g["walks"].items():
+                if sid not in drifted_ids:
+                    done.update(es)
+            tcov.append({"cfg": list(c), "model_states": g["states"], "model_transitions": g["edges"], "walks": len(g["walks"]),
+                         "transitions_executed_on_real_code_and_conformant": len(done)})
+        for c in conf:
+            c["drifted_ids"] = c.get("drifted_ids", [])[:20]
         cov = {
             "states": max(1, sum(s["distinct"] for s in stats)),
             "transitions": max(1, sum(s["generated"] for s in stats)),
@@ -333,10 +471,12 @@ def check(pid, tier, seed, replay=None):
             "model_invariants": MODEL_INVS[pid],
             "scripts": {"model_leads": len(leads), "simulated": sum(1 for s in scripts if s["id"].startswith("sim-")),
                         "directed": sum(1 for s in scripts if s["id"].startswith("directed-")),
-                        "free_exploration": sum(1 for s in scripts if s.get("free"))},
+                        "free_exploration": sum(1 for s in scripts if s.get("free")),
+                        "transition_cover_walks": sum(1 for s in scripts if s["id"].startswith("cover-"))},
             "recorded_events_validated": sum(len(o) for _, o, _ in recs),
             "gate_steps_recorded": sum(len(i) for _, _, i in recs),
             "impl_conformance": conf,
+            "transition_cover": tcov,
             "recordings_rejected_by_contract": len(bads),
             "rejected_owned_by_other_property": other,
             "rejected_scripts": sorted(rejected_ids)[:200],
